@@ -276,9 +276,9 @@ theorem derives_of_valid (hsufT : ∀ s, P.cfg.isSuffix s = true → P.cfg.isTer
       Derives P.terminals P.userProds t ∧ NoHelper P.suffix t
   | .leaf n v, hv, _, _ => by
     have ht : P.cfg.isTerm n = true := (Valid_leaf ..).1 hv
-    refine ⟨(Derives_leaf ..).2 (by simpa [Parser.cfg] using ht), (NoHelper_leaf ..).2 ?_⟩
+    refine ⟨(Derives_leaf ..).2 (by simpa [Parser.cfg, cfgOf] using ht), (NoHelper_leaf ..).2 ?_⟩
     intro hs
-    have := hsufT n (by simpa [Parser.cfg] using hs)
+    have := hsufT n (by simpa [Parser.cfg, cfgOf] using hs)
     rw [ht] at this; cases this
   | .node n cs, hv, hns, hni => by
     obtain ⟨hcs, hrule⟩ := (Valid_node ..).1 hv
@@ -290,7 +290,7 @@ theorem derives_of_valid (hsufT : ∀ s, P.cfg.isSuffix s = true → P.cfg.isTer
       obtain ⟨h1, h2, h3⟩ := hcs c hc
       exact derives_of_valid hsufT c h1 h2 h3
     refine ⟨(Derives_node ..).2 ⟨hrule, fun c hc => (hrec c hc).1⟩,
-            (NoHelper_node ..).2 ⟨by simpa [Parser.cfg] using hns, fun c hc => (hrec c hc).2⟩⟩
+            (NoHelper_node ..).2 ⟨by simpa [Parser.cfg, cfgOf] using hns, fun c hc => (hrec c hc).2⟩⟩
 termination_by t => sizeOf t
 decreasing_by
   simp_wf
@@ -321,17 +321,17 @@ theorem factOK_of_rel (h1 : Part1 P.terminals P.start P.prods) (hR : FactRel P)
       subst hp
       simp at hx
       subst hx
-      simpa [Parser.cfg] using hstart_ns
+      simpa [Parser.cfg, cfgOf] using hstart_ns
     · obtain ⟨rules, hm, r, hr, hrp⟩ := hrules s p hs hp
       subst hrp
-      simpa [Parser.cfg] using hR.inner s rules hm r hr x hx
+      simpa [Parser.cfg, cfgOf] using hR.inner s rules hm r hr x hx
   · intro s p hs hp hlast
     by_cases hsi : s = startSym
     · subst hsi
       simpa [extGram] using hp
     · have : gramRules P.userProds s = (extGram P.userProds P.start).prods s := by simp [extGram, hsi]
       rw [← this]
-      exact hR.flatIn s (by simpa [Parser.cfg] using hs) hsi p (Flat.base hp hlast)
+      exact hR.flatIn s (by simpa [Parser.cfg, cfgOf] using hs) hsi p (Flat.base hp hlast)
   · intro s pre s' e hs hp hs' hfl
     by_cases hsi : s = startSym
     · subst hsi
@@ -340,14 +340,14 @@ theorem factOK_of_rel (h1 : Part1 P.terminals P.start P.prods) (hR : FactRel P)
         have := congrArg List.getLast? hp
         simpa using this
       subst this
-      exact absurd (by simpa [Parser.cfg] using hs') hend_ns
+      exact absurd (by simpa [Parser.cfg, cfgOf] using hs') hend_ns
     · have : gramRules P.userProds s = (extGram P.userProds P.start).prods s := by simp [extGram, hsi]
       rw [← this]
-      exact hR.flatIn s (by simpa [Parser.cfg] using hs) hsi _ (Flat.step hp hs' hfl)
+      exact hR.flatIn s (by simpa [Parser.cfg, cfgOf] using hs) hsi _ (Flat.step hp hs' hfl)
   · intro s hs
-    have hs' : s ∈ P.suffix := by simpa [Parser.cfg] using hs
+    have hs' : s ∈ P.suffix := by simpa [Parser.cfg, cfgOf] using hs
     have := h1.disjoint s (hR.sufKeys s hs')
-    simpa [Parser.cfg] using this
+    simpa [Parser.cfg, cfgOf] using this
   · intro s p hp x hx
     by_cases hs : s = startSym
     · subst hs
@@ -369,7 +369,7 @@ theorem tableWF_of_built (h1 : Part1 P.terminals P.start P.prods)
     TableWF P.cfg (extGram P.prods P.start) := by
   constructor
   intro X t alts hlook
-  simp only [Parser.cfg, Option.map_eq_some_iff] at hlook
+  simp only [Parser.cfg, cfgOf, Option.map_eq_some_iff] at hlook
   obtain ⟨l, hl, hmap⟩ := hlook
   obtain ⟨hne, hall⟩ := mkTable_inv hT _ _ (dget_mem hl)
   subst hmap
@@ -443,7 +443,7 @@ theorem parse_sound_of_rel {inp : CtorIn} (hB : Built inp P) (hR : FactRel P)
   have hbstart : b.start = 0 := congrArg (·.2.1) hb
   have hinit_ns : P.cfg.isSuffix startSym = false := by
     have : startSym ∉ P.suffix := fun h => h1.initNoKey (hR.sufKeys _ h)
-    simpa [Parser.cfg] using this
+    simpa [Parser.cfg, cfgOf] using this
   rw [hbsym] at hv
   obtain ⟨hcs, hrule⟩ := (Valid_node ..).1 hv
   rw [if_neg (by simp [hinit_ns])] at hrule
@@ -474,7 +474,7 @@ theorem parse_sound_of_rel {inp : CtorIn} (hB : Built inp P) (hR : FactRel P)
       obtain ⟨_, hrule'⟩ := (Valid_node ..).1 hve
       have hens : P.cfg.isSuffix endSym = false := by
         have : endSym ∉ P.suffix := fun h => h1.endNoKey (hR.sufKeys _ h)
-        simpa [Parser.cfg] using this
+        simpa [Parser.cfg, cfgOf] using this
       rw [if_neg (by simp [hens])] at hrule'
       simp only [extGram, end_ne_init, if_false] at hrule'
       obtain ⟨rules, hm, _⟩ := mem_gramRules.1 hrule'
